@@ -187,12 +187,17 @@ class MuxSocketTransportSink(ClientMessageSink):
       self._greenlets.append(self._SpawnNamedGreenlet('Send Loop', self._SendLoop))
 
       self._CheckInitialConnection()
+      if self._state == ChannelState.Closed:
+        # The transport was shut down (eg the peer closed the connection)
+        # between the ping reply being read and being processed.
+        raise ClientError('Transport was shut down while opening.')
       self._log.debug('Open successful')
       self._state = ChannelState.Open
       self._varz.active(1)
     except Exception as e:
       self._log.error('Exception opening socket')
-      self._open_result.set_exception(e)
+      if self._open_result:
+        self._open_result.set_exception(e)
       self._Shutdown('Open failed')
       raise
 
